@@ -1,6 +1,6 @@
 /-
-No panic (C07), second class: guarded lookup lists WITH contextual subtables whose nested
-actions all run length-preserving lookups.  The invariant is the well-formedness of the stack
+No panic (C07), second class: guarded lookup lists WITH contextual subtables none of whose
+nested actions runs a ligature substitution (nested insertions by GSUB 2.1 are covered).  The invariant is the well-formedness of the stack
 of nested actions: recorded positions inside the sequence, `EndPos` inside the sequence.
 -/
 import SfntV.Proofs.ShapeSafe
@@ -171,10 +171,10 @@ theorem WF.push {ll : LookupList} {st : St} (h : WF ll st) (ps : List Nat) (acts
     · exact Int.ofNat_lt.mpr this
   · exact h en hen
 
-/-- postcondition of a subtable application in the length-preserving world -/
-def StepWF (ll : LookupList) (st : St) : Option (St × Nat) → Prop
+/-- postcondition of a subtable application: the resulting state (if any) is well-formed -/
+def StepWF (ll : LookupList) (_st : St) : Option (St × Nat) → Prop
   | none => True
-  | some r => WF ll r.1 ∧ r.1.seq.length = st.seq.length
+  | some r => WF ll r.1
 
 theorem firstRule_safeWF (ll : LookupList) (kp : Nat → Bool) (st : St) (a : Nat) (b : Int) (mb mi ml : Nat → Nat → Bool)
     (ha : a < st.seq.length) (hb : b ≤ (st.seq.length : Int)) (hwf : WF ll st) :
@@ -215,7 +215,7 @@ theorem firstRule_safeWF (ll : LookupList) (kp : Nat → Bool) (st : St) (a : Na
     | some pn =>
       obtain ⟨ps, next⟩ := pn
       obtain ⟨h1, h2⟩ := hx ps next rfl
-      exact ⟨hwf.push ps r.actions next h1 h2 (hacts r List.mem_cons_self), rfl⟩
+      exact hwf.push ps r.actions next h1 h2 (hacts r List.mem_cons_self)
 
 /-! ## length-preserving, non-contextual subtables: stack and length untouched -/
 
@@ -443,7 +443,6 @@ theorem SameShape.stepWF {ll : LookupList} {st : St} (hwf : WF ll st) {r : Optio
   cases r with
   | none => trivial
   | some r =>
-    refine ⟨?_, h.2⟩
     intro e he
     have he' : e ∈ st.stack := by rw [← h.1]; exact he
     have := hwf e he'
@@ -557,7 +556,7 @@ theorem applySub_ctxWF (ll : LookupList) (kp : Nat → Bool) (st : St) (a : Nat)
         | some pn =>
           obtain ⟨ps, next⟩ := pn
           obtain ⟨h1, h2⟩ := hx ps next rfl
-          exact ⟨hwf.push ps actions next h1 h2 hacts, rfl⟩
+          exact hwf.push ps actions next h1 h2 hacts
   | chain1 cov rules =>
     simp only [applySub]
     refine Safe.bind (idx_safe ha) ?_
@@ -598,7 +597,7 @@ theorem applySub_ctxWF (ll : LookupList) (kp : Nat → Bool) (st : St) (a : Nat)
         cases y with
         | none => trivial
         | some _ =>
-          refine ⟨hwf.push (a :: ps) actions next ?_ h2 hacts, rfl⟩
+          refine hwf.push (a :: ps) actions next ?_ h2 hacts
           intro z hz
           rcases List.mem_cons.mp hz with hz | hz
           · subst hz; exact ha
@@ -617,18 +616,117 @@ theorem applySub_ctxWF (ll : LookupList) (kp : Nat → Bool) (st : St) (a : Nat)
   | gpos41 _ _ _ _ => simp [Subtable.contextual] at hs
   | gpos61 _ _ _ _ => simp [Subtable.contextual] at hs
 
-/-- a guarded, length-preserving subtable whose actions are fine keeps the state well-formed -/
+/-! ## a nested multiple substitution: `fixStackInsert` keeps the entries inside the longer sequence -/
+
+theorem insAfterLast_mem (pos : Int) (new : List Int) : ∀ (l r : List Int), insAfterLast pos new l = some r →
+    ∀ x ∈ r, x ∈ l ∨ x ∈ new := by
+  intro l
+  induction l with
+  | nil => intro r h; simp [insAfterLast] at h
+  | cons p ps ih =>
+    intro r h x hx
+    simp only [insAfterLast] at h
+    split at h
+    · rename_i r' hr'
+      injection h with h; subst h
+      rcases List.mem_cons.mp hx with hx | hx
+      · exact Or.inl (by rw [hx]; exact List.mem_cons_self)
+      · rcases ih r' hr' x hx with h1 | h1
+        · exact Or.inl (List.mem_cons_of_mem _ h1)
+        · exact Or.inr h1
+    · split at h
+      · injection h with h; subst h
+        rcases List.mem_cons.mp hx with hx | hx
+        · exact Or.inl (by rw [hx]; exact List.mem_cons_self)
+        · rcases List.mem_append.mp hx with h1 | h1
+          · exact Or.inr h1
+          · exact Or.inl (List.mem_cons_of_mem _ h1)
+      · cases h
+
+theorem fixInsertOne_wf (ll : LookupList) (n a k : Nat) (e : Nested) (hwf : EntryWF ll n e) (ha : a < n) :
+    EntryWF ll (n + (k - 1)) (fixInsertOne (a : Int) k e) := by
+  unfold fixInsertOne
+  split
+  · exact ⟨fun p hp => by have := hwf.pos p hp; constructor <;> omega, hwf.endLo,
+      by have := hwf.endHi; omega, hwf.acts⟩
+  · refine ⟨?_, by have := hwf.endLo; simp only; omega, by have := hwf.endHi; simp only; omega, hwf.acts⟩
+    intro p hp
+    simp only at hp
+    have hshift : ∀ x ∈ e.inputPos.map (fun p => if p > (a : Int) then p + ((k - 1 : Nat) : Int) else p),
+        0 ≤ x ∧ x < ((n + (k - 1) : Nat) : Int) := by
+      intro x hx
+      obtain ⟨q, hq, rfl⟩ := List.mem_map.mp hx
+      have := hwf.pos q hq
+      split <;> constructor <;> omega
+    have hnew : ∀ x ∈ newPositions (a : Int) k, 0 ≤ x ∧ x < ((n + (k - 1) : Nat) : Int) := by
+      intro x hx
+      unfold newPositions at hx
+      obtain ⟨j, hj, rfl⟩ := List.mem_map.mp hx
+      have := List.mem_range.mp hj
+      constructor <;> omega
+    cases hins : insAfterLast (a : Int) (newPositions (a : Int) k)
+        (e.inputPos.map (fun p => if p > (a : Int) then p + ((k - 1 : Nat) : Int) else p)) with
+    | none => rw [hins] at hp; exact hshift p hp
+    | some r =>
+      rw [hins] at hp
+      rcases insAfterLast_mem _ _ _ _ hins p hp with h1 | h1
+      · exact hshift p h1
+      · exact hnew p h1
+
+theorem applySub_gsub21_WF (ll : LookupList) (kp : Nat → Bool) (st : St) (a : Nat) (b : Int) (cov : Cov)
+    (repl : List (List Nat)) (hg : (Subtable.gsub21 cov repl).guarded = true)
+    (ha : a < st.seq.length) (hwf : WF ll st) :
+    Safe (StepWF ll st) (applySub kp st a b (.gsub21 cov repl)) := by
+  simp only [applySub]
+  refine Safe.bind (idx_safe ha) ?_
+  intro g hg' _
+  split
+  · trivial
+  · rename_i i hi
+    refine Safe.bind (idx_safe (covBelow_lt hg hi)) ?_
+    intro rp _ _
+    cases rp with
+    | nil => trivial
+    | cons r0 rs =>
+      have hsplit := split_at (idx_ok hg')
+      have hlen : (st.seq.take a ++ ({ g with gid := r0 } :: rs.map fun r => (⟨r, [], 0, 0, 0⟩ : Glyph))
+          ++ st.seq.drop (a + 1)).length = st.seq.length + (rs.length + 1 - 1) := by
+        have h1 : st.seq.length = (List.take a st.seq).length + 1 + (List.drop (a + 1) st.seq).length := by
+          conv => lhs; rw [hsplit]
+          simp; omega
+        simp only [List.length_append, List.length_cons, List.length_map]
+        omega
+      show WF ll ⟨_, _⟩
+      intro e he
+      simp only at he
+      show EntryWF ll (List.length _) e
+      rw [hlen]
+      split at he
+      · obtain ⟨e0, he0, rfl⟩ := List.mem_map.mp he
+        exact fixInsertOne_wf ll _ a _ e0 (hwf e0 he0) ha
+      · rename_i hk
+        have hrs : rs.length = 0 := by omega
+        rw [hrs]
+        exact hwf e he
+
+/-- a guarded subtable without merges whose actions are fine keeps the state well-formed -/
 theorem applySub_safeWF (ll : LookupList) (kp : Nat → Bool) (st : St) (a : Nat) (b : Int) (s : Subtable)
-    (hg : s.guarded = true) (hf : s.fixedLen = true) (hacts : ∀ act ∈ s.actions, actOK ll act = true)
+    (hg : s.guarded = true) (hf : s.mergeFree = true) (hacts : ∀ act ∈ s.actions, actOK ll act = true)
     (ha : a < st.seq.length) (hb : b ≤ (st.seq.length : Int)) (hwf : WF ll st) :
     Safe (StepWF ll st) (applySub kp st a b s) := by
   cases hs : s.contextual with
   | true => exact applySub_ctxWF ll kp st a b s hg hs hacts ha hb hwf
-  | false => exact (applySub_shape kp st a b s hg hs hf ha hb).mono fun r hr => hr.stepWF hwf
+  | false =>
+    cases hfl : s.fixedLen with
+    | true => exact (applySub_shape kp st a b s hg hs hfl ha hb).mono fun r hr => hr.stepWF hwf
+    | false =>
+      cases s <;> simp [Subtable.fixedLen] at hfl
+      · exact applySub_gsub21_WF ll kp st a b _ _ hg ha hwf
+      · simp [Subtable.mergeFree] at hf
 
 theorem applyAt_safeWF (ll : LookupList) (kp : Nat → Bool) (st : St) (a : Nat) (b : Int)
     (ha : a < st.seq.length) (hb : b ≤ (st.seq.length : Int)) (hwf : WF ll st) :
-    ∀ (ss : List Subtable), (∀ s ∈ ss, s.guarded = true ∧ s.fixedLen = true ∧ ∀ act ∈ s.actions, actOK ll act = true) →
+    ∀ (ss : List Subtable), (∀ s ∈ ss, s.guarded = true ∧ s.mergeFree = true ∧ ∀ act ∈ s.actions, actOK ll act = true) →
     Safe (StepWF ll st) (applyAt kp st a b ss) := by
   intro ss
   induction ss with
@@ -652,8 +750,8 @@ theorem idxI_safe {site : String} {xs : List α} {i : Int} (h0 : 0 ≤ i) (h1 : 
   · omega
   · exact (idx_safe (by omega)).mono (fun _ _ => trivial)
 
-/-- what `guardedLL` and `nestedFixedLL` say about one lookup of the list -/
-theorem lookup_facts {ll : LookupList} {lk : Lookup} (hg : guardedLL ll = true) (hn : nestedFixedLL ll = true)
+/-- what `guardedLL` and `nestedMergeFreeLL` say about one lookup of the list -/
+theorem lookup_facts {ll : LookupList} {lk : Lookup} (hg : guardedLL ll = true) (hn : nestedMergeFreeLL ll = true)
     (hmem : lk ∈ ll) : ∀ s ∈ lk.subtables, s.guarded = true ∧ ∀ act ∈ s.actions, actOK ll act = true := by
   intro s hs
   have h1 : lk.guarded = true := List.all_eq_true.mp hg lk hmem
@@ -663,7 +761,7 @@ theorem lookup_facts {ll : LookupList} {lk : Lookup} (hg : guardedLL ll = true) 
   exact List.all_eq_true.mp (List.all_eq_true.mp h2 s hs) act hact
 
 theorem nestedLoop_safeWF (B : Nat) (ll : LookupList) (gd : Gdef)
-    (hg : guardedLL ll = true) (hn : nestedFixedLL ll = true) :
+    (hg : guardedLL ll = true) (hn : nestedMergeFreeLL ll = true) :
     ∀ (fuel : Nat) (st : St) (n : Nat) (next : Int), WF ll st → 0 ≤ next →
     Safe (fun r => WF ll r.1 ∧ 0 ≤ r.2) (nestedLoop B ll gd fuel st n next) := by
   intro fuel
@@ -707,7 +805,7 @@ theorem nestedLoop_safeWF (B : Nat) (ll : LookupList) (gd : Gdef)
             · exact ih _ (n + 1) next hwf1 h0
             · rename_i lk hlk
               have hmem : lk ∈ ll := List.mem_of_getElem? hlk
-              have hfix : lk.fixedLen = true := by
+              have hfix : lk.mergeFree = true := by
                 have := htop.acts act (by rw [hacts]; exact List.mem_cons_self)
                 unfold actOK at this
                 rw [hlk] at this
@@ -715,7 +813,7 @@ theorem nestedLoop_safeWF (B : Nat) (ll : LookupList) (gd : Gdef)
               refine Safe.bind (idxI_safe hp.1 hp.2) ?_
               intro g _ _
               split
-              · have hsub : ∀ s ∈ lk.subtables, s.guarded = true ∧ s.fixedLen = true ∧
+              · have hsub : ∀ s ∈ lk.subtables, s.guarded = true ∧ s.mergeFree = true ∧
                     ∀ act ∈ s.actions, actOK ll act = true := by
                   intro s hs
                   obtain ⟨h1, h2⟩ := lookup_facts hg hn hmem s hs
@@ -728,7 +826,7 @@ theorem nestedLoop_safeWF (B : Nat) (ll : LookupList) (gd : Gdef)
                 | none => exact ih _ (n + 1) next hwf1 h0
                 | some r =>
                   obtain ⟨st2, nx⟩ := r
-                  exact ih st2 (n + 1) next hr.1 h0
+                  exact ih st2 (n + 1) next hr h0
               · exact ih _ (n + 1) next hwf1 h0
 
 theorem applyAt_top_safe (ll : LookupList) (kp : Nat → Bool) (st : St) (a : Nat)
@@ -747,16 +845,16 @@ theorem applyAt_top_safe (ll : LookupList) (kp : Nat → Bool) (st : St) (a : Na
     have hsub : Safe (fun r => match r with
         | none => True
         | some r => WF ll r.1) (applySub kp st a st.seq.length s) := by
-      cases hf : s.fixedLen with
+      cases hf : s.mergeFree with
       | true =>
         refine (applySub_safeWF ll kp st a _ s h1 hf h3 ha (Int.le_refl _) (WF.nil hst)).mono ?_
         intro r hr
         cases r with
         | none => trivial
-        | some r => exact hr.1
+        | some r => exact hr
       | false =>
         have hs : s.contextual = false := by
-          cases s <;> simp [Subtable.fixedLen] at hf <;> rfl
+          cases s <;> simp [Subtable.mergeFree] at hf <;> rfl
         refine (applySub_safe kp st a s h1 hs ha hst).mono ?_
         intro r hr
         cases r with
@@ -769,7 +867,7 @@ theorem applyAt_top_safe (ll : LookupList) (kp : Nat → Bool) (st : St) (a : Na
     | some r => exact hr
 
 theorem applyAtRec_safeN (B : Nat) (ll : LookupList) (gd : Gdef)
-    (hg : guardedLL ll = true) (hn : nestedFixedLL ll = true) (lk : Lookup) (hmem : lk ∈ ll) (st : St) (pos : Int)
+    (hg : guardedLL ll = true) (hn : nestedMergeFreeLL ll = true) (lk : Lookup) (hmem : lk ∈ ll) (st : St) (pos : Int)
     (h0 : 0 ≤ pos) (hlt : pos < st.seq.length) (hst : st.stack = []) :
     Safe (fun r => r.1.stack = [] ∧ 0 ≤ r.2) (applyAtRec B ll gd lk st pos) := by
   unfold applyAtRec
@@ -825,7 +923,7 @@ theorem lookupLoop_safe' (B : Nat) (ll : LookupList) (gd : Gdef) (lk : Lookup)
     · exact hst
 
 theorem applyLookups_safeN (B : Nat) (ll : LookupList) (gd : Gdef)
-    (hg : guardedLL ll = true) (hn : nestedFixedLL ll = true) :
+    (hg : guardedLL ll = true) (hn : nestedMergeFreeLL ll = true) :
     ∀ (lookups : List Nat) (st : St), st.stack = [] → Safe (fun st' => st'.stack = []) (applyLookups B ll gd lookups st) := by
   intro lookups
   induction lookups with
